@@ -369,6 +369,28 @@ impl InputList {
         Ok(Self { events })
     }
 
+    /// The DOCTYPE of a processed (svgdx) document is not carried over to the
+    /// output, so neither can references to entities which it declares.
+    pub fn check_entities_predefined(&self) -> Result<()> {
+        for ev in &self.events {
+            let bad = match &ev.event {
+                Event::Text(t) => bad_reference(&String::from_utf8_lossy(t), false),
+                Event::Start(e) | Event::Empty(e) => e
+                    .attributes()
+                    .flatten()
+                    .find_map(|a| bad_reference(&String::from_utf8_lossy(&a.value), false)),
+                _ => None,
+            };
+            if let Some(r) = bad {
+                return Err(SvgdxError::ParseError(format!(
+                    "XML error near line {}: reference '{r}' to an entity declared in the DOCTYPE is only supported in SVG documents passed through unchanged",
+                    ev.line
+                )));
+            }
+        }
+        Ok(())
+    }
+
     pub fn slice(&self, start: usize, end: usize) -> Self {
         Self {
             events: self.events[start..end].to_vec(),
